@@ -107,7 +107,10 @@ def run(rep, tier, seed, model_ok=True, effort=1):
     # the new version is rejected (lower / equal / PEP 440-lower tag change): nothing may change
     for vp, cur, args_ in [("MAJOR.MINOR.PATCH[-TAG]", "1.2.3", ["--tag", "beta"]), ("MAJOR.MINOR.PATCH[-TAG]", "1.2.3-rc", ["--tag", "beta"]),
                            ("MAJOR.MINOR.PATCH", "1.2.3", ["--set-version", "1.2.3"]), ("MAJOR.MINOR.PATCH", "1.2.3", ["--set-version", "1.2.2"]),
-                           ("MAJOR.MINOR.PATCH", "1.2.3", []), ("vYYYY0M.BUILD[-TAG]", "v209901.1001", ["--set-version", "v202001.1001"])]:
+                           ("MAJOR.MINOR.PATCH", "1.2.3", []), ("vYYYY0M.BUILD[-TAG]", "v209901.1001", ["--set-version", "v202001.1001"]),
+                           # equal under PEP 440, different as text
+                           ("MAJOR.MINOR[.PATCH]", "1.2.0", ["--set-version", "1.2"]), ("MAJOR.MINOR[.PATCH]", "1.2", ["--set-version", "1.2.0"]),
+                           ("YYYY.0M[.PATCH]", "2026.10.0", []), ("MAJOR.MINOR.PATCH[PYTAG[NUM]]", "1.2.3rc0", ["--set-version", "1.2.3rc"])]:
         for commit in (False, True):
             prj = project.TempProject(vp, cur, files={"a.txt": ["ver = {version}"]}, commit=commit, tag=commit, vcs="fakegit" if commit else None,
                                       vcs_cfg=dict(tags=[], status="", remote=None) if commit else None, hooks={"pre": "ok"} if commit else None)
@@ -122,6 +125,29 @@ def run(rep, tier, seed, model_ok=True, effort=1):
                 inp = dict(version_pattern=vp, current_version=cur, args=args, commit=commit, exit=code, logs=logs[-4:])
                 if code == 0 or after != before or mut or (commit and prj.hooks_log()):
                     rep.violation("a rejected new version did not stop the update (exit %s, files changed: %s, vcs: %s)" % (code, after != before, mut), input=inp, **{"class": "rejected-not-stopped"})
+    # one file reached under two names (a symbolic link): the entry with the non-matching pattern must still stop the update
+    import os
+    for commit in (False, True):
+        for first in ("real", "link"):
+            for extra in ([], ["--dry"]):
+                entries = [("README.md", ["ver {version}"]), ("docs/README.md", ["no-such-text {version}"])]
+                if first == "link":
+                    entries.reverse()
+                prj = project.TempProject("MAJOR.MINOR.PATCH", "1.2.3", files=dict(entries), contents={"README.md": "# readme\nver 1.2.3\n", "docs/README.md": "placeholder\n"},
+                                          commit=commit, tag=commit, vcs="fakegit" if commit else None, vcs_cfg=dict(tags=[], status="", remote=None) if commit else None)
+                with prj:
+                    os.unlink(prj.path("docs/README.md"))
+                    os.symlink("../README.md", prj.path("docs/README.md"))
+                    before = prj.snapshot()
+                    code, out, logs, exc = prj.run(impl, ["update", "--no-fetch", "--patch"] + extra)
+                    after = prj.snapshot()
+                    mut = [e["key"] for e in prj.vcs_log() if e["key"] in MUTATING] if commit else []
+                    rep.case(("symlink-twin", commit, first, tuple(extra)))
+                    rep.count("symlink-twin-runs")
+                    if code == 0 or after != before or mut:
+                        rep.violation("a pattern without a match (entry reached through a symbolic link to an already listed file) did not stop the update",
+                                      input=dict(entries=entries, commit=commit, args=["update", "--no-fetch", "--patch"] + extra, exit=code, logs=logs[-4:], vcs=mut),
+                                      **{"class": "fault-exit0"})
     # a configured glob entry that matches no file is a missing file
     for commit in (False, True):
         prj = project.TempProject("MAJOR.MINOR.PATCH", "1.2.3", files={"a.txt": ["ver = {version}"], "gone/*.md": ["{version}"]}, commit=commit, tag=commit,
